@@ -19,7 +19,7 @@ t_, c_, k_, a_, k2_ = z3.Ints('t!s c!s k!s a!s k2!s')
 #
 # Two levels.  (1) The nested function one_mode(sh1, sh2, rng) (closure over r, seed) is verified on its own (its three branches are three
 # contract cases): it returns rng * L1 * L2 rows; row t carries ghost witnesses (nn, a, b) with
-#       t = (nn * L1 + a) * L2 + b,  0 <= nn < rng, 0 <= a < L1, 0 <= b < L2      (itertools.product: last factor fastest)
+#       t = spos(nn, a, b, L1, L2) = (nn * L1 + a) * L2 + b,  0 <= nn < rng, 0 <= a < L1, 0 <= b < L2      (itertools.product: last factor fastest)
 # and equals  P[a] (+) [nn] (+) S[b]  where P = sample_lhs(sh1, r, seed) (L1 = r rows; L1 = 1 and no prefix if sh1 is empty) and
 # S = sample_lhs(sh2, r, seed) (L2 = r; L2 = 1 and no suffix if sh2 is empty).  Every sample_lhs call receives the closure's seed object
 # itself and m = r, so each Latin-hypercube table is a function of (shape, r, seed) alone and a generator object is the only source of
@@ -44,8 +44,8 @@ def seq_arr_len(st, v):
 
 
 def call_sample_lhs(ex, st, args, kwargs, node):
-    """sample_lhs(n, m, seed) by contract (unit sample.sample_lhs.counts: integer array of shape (m, d); no value outside [0, n_c) is used in
-    column c - restated here entry by entry).  Every call is logged (ghost 'lhs_calls')."""
+    """sample_lhs(n, m, seed) by contract: integer array of shape (m, d) (unit sample.sample_lhs.counts) whose column c has all entries in [0, n_c)
+    (unit sample.sample_lhs.bounds below; the multiset form of the same fact is in sample.sample_lhs.counts).  Every call is logged (ghost 'lhs_calls')."""
     if kwargs or len(args) != 3:
         raise M.Unsupported('sample_lhs calling pattern')
     sh, ln = seq_arr_len(st, args[0])
@@ -69,7 +69,7 @@ def row_layout(arr, n, len1, len2, rng, L1, L2, P, S_):
     W = len1 + 1 + len2
     return [('every-row-has-one-index-per-mode-and-a-position-decoding: t = (nn*L1 + a)*L2 + b, last factor fastest',
              z3.ForAll([t_], z3.Implies(z3.And(0 <= t_, t_ < n),
-                                        z3.And(SRow.w(e) == W, 0 <= gn, gn < rng, 0 <= ga, ga < L1, 0 <= gb, gb < L2, t_ == (gn * L1 + ga) * L2 + gb)),
+                                        z3.And(SRow.w(e) == W, 0 <= gn, gn < rng, 0 <= ga, ga < L1, 0 <= gb, gb < L2, t_ == X.spos(gn, ga, gb, L1, L2))),
                        patterns=[arr[t_]])),
             ('row-t-is-prefix[a] (+) [nn] (+) suffix[b]',
              z3.ForAll([t_, c_], z3.Implies(z3.And(0 <= t_, t_ < n, 0 <= c_, c_ < W),
@@ -82,8 +82,7 @@ def lens_of_case(len1, len2, r):
     return z3.If(z3.And(len2 != 0, len1 == 0), 1, r), z3.If(len2 == 0, 1, r)
 
 
-def one_mode_post(arr, n, sh1, len1, sh2, len2, rng, r, P, S_):
-    L1, L2 = lens_of_case(len1, len2, r)
+def one_mode_post(arr, n, sh1, len1, sh2, len2, rng, L1, L2, P, S_):
     return [('number-of-rows-is-rng*len_1*len_2', n == rng * L1 * L2)] + row_layout(arr, n, len1, len2, rng, L1, L2, P, S_) + \
         [('prefix-entries-lie-inside-the-modes-before',
           z3.ForAll([a_, c_], z3.Implies(z3.And(0 <= a_, a_ < L1, 0 <= c_, c_ < len1), z3.And(0 <= P[a_][c_], P[a_][c_] < sh1[c_])), patterns=[P[a_][c_]])),
@@ -102,7 +101,8 @@ def forward_form(U, p, arr, n, len1, len2, rng, L1, L2, P, S_, extra=(), tag='')
     U.lemma(tag + 'mixed-radix-decoding-is-unique', rngs + uniq_h, z3.And(g1 == nn, g2 == a, g3 == b), qf=True)
     e = arr[pos]
     inst = z3.substitute(z3.Implies(z3.And(rngs + uniq_h), z3.And(g1 == nn, g2 == a, g3 == b)), (g1, SRow.gn(e)), (g2, SRow.ga(e)), (g3, SRow.gb(e)))
-    hyp = list(p.pc if hasattr(p, 'pc') else p) + list(extra) + rngs + [z3.And(0 <= pos, pos < rng * L1 * L2), inst, n == rng * L1 * L2] + \
+    hyp = list(p.pc if hasattr(p, 'pc') else p) + list(extra) + rngs + [z3.And(0 <= pos, pos < rng * L1 * L2), inst, n == rng * L1 * L2,
+                                                                        X.spos_def(SRow.gn(e), SRow.ga(e), SRow.gb(e), L1, L2)] + \
         [g for _, g in row_layout(arr, n, len1, len2, rng, L1, L2, P, S_)]
     U.post(tag + 'forward-form: the row at position (nn*L1 + a)*L2 + b is prefix[a] (+) [nn] (+) suffix[b]', hyp,
            z3.Implies(z3.And(0 <= cc, cc < len1 + 1 + len2), SRow.vals(e)[cc] == z3.If(cc < len1, P[a][cc], z3.If(cc == len1, nn, S_[b][cc - len1 - 1]))))
@@ -160,7 +160,15 @@ def _one_mode_unit(U, case, kind):
         raise M.ContractMismatch('one_mode: a loop of another branch is reached in this contract case')
 
     loops = {k: {'inv': no_loop} for k in range(6)}
-    loops[o_ord], loops[o_ord + 1] = {'inv': inv_outer}, {'inv': inv_inner}
+    def inner_end(ex, s, o, jj):
+        ex.oblige(s, 'canary', 'canary-inner-loop-body-unreachable', False, None, assume=False)
+        # proof hint: the instance of the definition of spos (theory group 'spos') for the row that was just appended
+        L1, L2, _, _ = ctx(s)
+        rs = res_of(s)
+        e = rs.arr[rs.n - 1]
+        s.assume(X.spos_def(SRow.gn(e), SRow.ga(e), SRow.gb(e), L1, L2))
+
+    loops[o_ord], loops[o_ord + 1] = {'inv': inv_outer}, {'inv': inv_inner, 'body_end': inner_end}
     ex = U.executor(fn, loops=loops, callees={'sample.sample_lhs': call_sample_lhs}, type_hints={'res': X.srows_kind})
     ex.opt = True
     st.vars.update(sh1=sh1, sh2=sh2, rng=rng, r=r, seed=seed)
@@ -184,7 +192,7 @@ def _one_mode_unit(U, case, kind):
         L1, L2, P, S_ = ctx(p)
         E1, E2 = lens_of_case(len1, len2, r)
         U.post('len_1-and-len_2-are-the-numbers-of-prefix-and-suffix-rows (r, or 1 where there is no table)', p, z3.And(l1 == E1, l2 == E2, l1 == L1, l2 == L2))
-        for lbl, g in one_mode_post(rs.arr, Z(rs.n), a1, len1, a2, len2, rng, r, P, S_):
+        for lbl, g in one_mode_post(rs.arr, Z(rs.n), a1, len1, a2, len2, rng, E1, E2, P, S_):
             U.post(lbl, p, g)
         forward_form(U, p, rs.arr, Z(rs.n), len1, len2, rng, L1, L2, P, S_)
         calls = p.ghost.get('lhs_calls', [])
@@ -217,26 +225,27 @@ def call_one_mode(ex, st, args, kwargs, node):
     ex.oblige(st, 'call-pre', 'one_mode: r >= 1, rng >= 0, mode sizes >= 1, at least one other mode',
               z3.And(r >= 1, rng >= 0, len1 >= 0, len2 >= 0, len1 + len2 >= 1, _sizes(a1, len1), _sizes(a2, len2)), node)
     b = ex.fresh('blk', Block)
-    for lbl, g in one_mode_post(Block.brows(b), Block.blen(b), a1, len1, a2, len2, rng, r, Block.bpre(b), Block.bsuf(b)):
+    E1, E2 = lens_of_case(len1, len2, r)
+    L1, L2 = Block.bl1(b), Block.bl2(b)          # the strides are carried by the block value, so that the layout formula keeps one syntactic form
+    st.assume(L1 == E1, L2 == E2)
+    for lbl, g in one_mode_post(Block.brows(b), Block.blen(b), a1, len1, a2, len2, rng, L1, L2, Block.bpre(b), Block.bsuf(b)):
         st.assume(g)
     st.ghost['one_mode_calls'] = st.ghost.get('one_mode_calls', []) + [dict(seed=st.vars.get('seed'), r=st.vars.get('r'))]
-    L1, L2 = lens_of_case(len1, len2, r)
     return VTuple([st.alloc(X.VSRows(Block.brows(b), Block.blen(b), b)), L1, L2])
 
 
 def block_facts(B, upto, narr, d, r):
     """Layout of the blocks B[0 .. upto-1] of sample_tt: block k belongs to mode k (prefixes over the modes < k, suffixes over the modes > k)."""
-    L1 = z3.If(k_ == 0, 1, r)
-    L2 = z3.If(k_ == d - 1, 1, r)
     b = B[k_]
+    L1, L2 = Block.bl1(b), Block.bl2(b)
     e = Block.brows(b)[t_]
     gn, ga, gb = SRow.gn(e), SRow.ga(e), SRow.gb(e)
     dom = z3.And(0 <= k_, k_ < upto)
     return [('block-k-has-n_k*L1_k*L2_k-rows (L1_0 = 1, L2_(d-1) = 1, else r)',
-             z3.ForAll([k_], z3.Implies(dom, Block.blen(b) == narr[k_] * L1 * L2), patterns=[B[k_]])),
+             z3.ForAll([k_], z3.Implies(dom, z3.And(L1 == z3.If(k_ == 0, 1, r), L2 == z3.If(k_ == d - 1, 1, r), Block.blen(b) == narr[k_] * L1 * L2)), patterns=[B[k_]])),
             ('rows-of-block-k-have-d-entries-and-a-position-decoding: t = (nn*L1 + a)*L2 + b',
              z3.ForAll([k_, t_], z3.Implies(z3.And(dom, 0 <= t_, t_ < Block.blen(b)),
-                                            z3.And(SRow.w(e) == d, 0 <= gn, gn < narr[k_], 0 <= ga, ga < L1, 0 <= gb, gb < L2, t_ == (gn * L1 + ga) * L2 + gb)),
+                                            z3.And(SRow.w(e) == d, 0 <= gn, gn < narr[k_], 0 <= ga, ga < L1, 0 <= gb, gb < L2, t_ == X.spos(gn, ga, gb, L1, L2))),
                        patterns=[Block.brows(B[k_])[t_]])),
             ('row-t-of-block-k-is-prefix_k[a] (+) [nn] (+) suffix_k[b] with nn in column k',
              z3.ForAll([k_, t_, c_], z3.Implies(z3.And(dom, 0 <= t_, t_ < Block.blen(b), 0 <= c_, c_ < d),
@@ -279,6 +288,7 @@ def _sample_tt_unit(U, nkind, skind):
 
     def body_end(ex_, s, o, j):
         calls = s.ghost.get('one_mode_calls', [])
+        ex_.oblige(s, 'canary', 'canary-loop-body-unreachable', False, None, assume=False)
         ex_.oblige(s, 'post', 'each-mode-calls-one_mode-once-and-one_mode-sees-the-caller-s-seed-and-r-unchanged (every Latin-hypercube table is sample_lhs(.., r, seed))',
                    z3.BoolVal(len(calls) == 1 and calls[0]['seed'] is seed and calls[0]['r'] is r), None, assume=False)
 
@@ -314,13 +324,19 @@ def _sample_tt_unit(U, nkind, skind):
         hyp = list(p.pc) + [starts]
         U.post('I-has-idx[d]-rows-and-d-columns', hyp, z3.And(Z(Rm.shape[0]) == ix[d], Z(Rm.shape[1]) == d))
         dk = z3.And(0 <= kk, kk < d)
-        U.post('idx[0]=0-and-block-k-has-idx[k+1]-idx[k] = n_k*L1_k*L2_k-rows', hyp, z3.And(ix[0] == 0, z3.Implies(dk, ix[kk + 1] - ix[kk] == narr[kk] * L1(kk) * L2(kk))))
+        b1, b2 = Block.bl1(B[kk]), Block.bl2(B[kk])
+        U.post('idx[0]=0-and-block-k-has-idx[k+1]-idx[k] = n_k*l1*l2-rows-for-its-strides-l1 = L1_k, l2 = L2_k', hyp,
+               z3.And(ix[0] == 0, z3.Implies(dk, z3.And(ix[kk + 1] - ix[kk] == narr[kk] * b1 * b2, b1 == L1(kk), b2 == L2(kk)))))
+        U.post('block-k-has-idx[k+1]-idx[k] = n_k*L1_k*L2_k-rows', [dk, ix[kk + 1] - ix[kk] == narr[kk] * b1 * b2, b1 == L1(kk), b2 == L2(kk)],
+               ix[kk + 1] - ix[kk] == narr[kk] * L1(kk) * L2(kk), qf=True)
         U.post('idx_many[k]-is-the-stride-L2_k: r, and 1 for the last mode', hyp, z3.Implies(dk, im[kk] == L2(kk)))
         e = Block.brows(B[kk])[tt]
         gn, ga, gb = SRow.gn(e), SRow.ga(e), SRow.gb(e)
         dt = z3.And(dk, 0 <= tt, tt < ix[kk + 1] - ix[kk])
-        U.post('row-idx[k]+t-decodes-as-t = (nn*L1_k + a)*L2_k + b (mode index slowest, suffix fastest)', hyp,
-               z3.Implies(dt, z3.And(0 <= gn, gn < narr[kk], 0 <= ga, ga < L1(kk), 0 <= gb, gb < L2(kk), tt == (gn * L1(kk) + ga) * L2(kk) + gb)))
+        U.post('row-idx[k]+t-carries-a-decoding (nn, a, b) of its position t', hyp,
+               z3.Implies(dt, z3.And(0 <= gn, gn < narr[kk], 0 <= ga, ga < L1(kk), 0 <= gb, gb < L2(kk), tt == X.spos(gn, ga, gb, L1(kk), L2(kk)))))
+        U.post('row-idx[k]+t-decodes-as-t = (nn*L1_k + a)*L2_k + b (mode index slowest, suffix fastest)',
+               [tt == X.spos(gn, ga, gb, L1(kk), L2(kk)), X.spos_def(gn, ga, gb, L1(kk), L2(kk))], tt == (gn * L1(kk) + ga) * L2(kk) + gb, qf=True)
         ent = X.stack_entry(Rm, kk, tt, cc)
         U.post('row-idx[k]+t-is-prefix_k[a] (+) [nn] (+) suffix_k[b]', hyp,
                z3.Implies(z3.And(dt, 0 <= cc, cc < d),
@@ -540,6 +556,7 @@ def _beam_unit(U, l2r, ret_all):
         if o.kind not in ('normal', 'continue'):
             return
         I, Q, Zs = tables(s)
+        ex.oblige(s, 'canary', 'canary-loop-body-unreachable', False, None, assume=False)
         # the statements of one pass, read back from the provenance of the final values: Q = (gathered Q) [* 2^p0], I = gathered I
         src = getattr(Q, 'scaled_from', None) or Q
         gq, gi = getattr(src, 'gathered', None), getattr(I, 'gathered', None)
@@ -894,7 +911,8 @@ def _optima_qtt_unit(U, valid):
         n = s.vars.get('n')
         if not (isinstance(n, VArr) and n.ndim == 1 and n.tag == 'ivec' and n.t is not None):
             raise M.ContractMismatch('optima_qtt: n is not the shape vector inside the validation loop')
-        return [('mode-sizes-seen-so-far-equal-the-first', z3.ForAll([c_], z3.Implies(z3.And(1 <= c_, c_ <= j), n.t[c_] == n.t[0]), patterns=[n.t[c_]]))]
+        return [('mode-sizes-seen-so-far-equal-the-first', z3.ForAll([c_], z3.Implies(z3.And(1 <= c_, c_ <= j), n.t[c_] == n.t[0]), patterns=[n.t[c_]])),
+                ('cores-seen-so-far-have-the-first-mode-size', z3.ForAll([c_], z3.Implies(z3.And(0 <= c_, c_ <= j), T.d1(arr[c_]) == n.t[0]), patterns=[arr[c_]]))]
 
     qx = z3.Int('qcode')                 # names int(log2 n) in the validation case (a definition in the precondition list)
     rng = hval_range_lemma(U, q0 if valid else qx)
@@ -942,25 +960,24 @@ def _optima_qtt_unit(U, valid):
         U.post('a-return-means: all mode sizes equal 2^q with q = int(log2 n)', p,
                z3.Implies(z3.And(0 <= c_, c_ < d), T.d1(arr[c_]) == T.pow2(qv)), axioms=AX)
         okc = len(conv) == 1 and len(search) == 1 and len(back) == 2 and len(gets) == 2
-        U.post('one-conversion-one-search-two-index-conversions-two-evaluations', p, z3.BoolVal(okc))
-        if not okc:
-            continue
-        U.post('conversion-of-the-given-tensor-with-the-caller-s-accuracy-and-rank-cap', p,
-               z3.And(z3.BoolVal(z3.eq(conv[0]['Y'].arr, arr)), conv[0]['e'] == e, conv[0]['r'] == r))
-        U.post('search-on-the-converted-tensor-with-the-caller-s-k', p, z3.BoolVal(z3.eq(search[0]['Z'].arr, conv[0]['out']) and search[0]['k'] is k))
-        outs = (back[0]['out'], back[1]['out'])
-        U.post('both-found-indices-are-mapped-back-with-q = int(log2 n), and these two are what is returned (in either order)', p,
-               z3.And(z3.BoolVal(back[0]['arg'] is search[0]['out'][0] and back[1]['arg'] is search[0]['out'][1]
-                                 and ((i_min is outs[0] and i_max is outs[1]) or (i_min is outs[1] and i_max is outs[0]))),
-                      Z(back[0]['q']) == qv, Z(back[1]['q']) == qv))
-        U.post('the-two-evaluations-are-get(Y, .) on the tensor the caller passed, at the two mapped-back indices', p,
-               z3.BoolVal(all(z3.eq(g[0].arr, arr) for g in gets) and gets[0][1] is outs[0] and gets[1][1] is outs[1]))
+        if okc:           # the documented pipeline (otherwise only the statements about the returned values below are checked)
+            U.post('conversion-of-the-given-tensor-with-the-caller-s-accuracy-and-rank-cap', p,
+                   z3.And(z3.BoolVal(z3.eq(conv[0]['Y'].arr, arr)), conv[0]['e'] == e, conv[0]['r'] == r))
+            U.post('search-on-the-converted-tensor-with-the-caller-s-k', p, z3.BoolVal(z3.eq(search[0]['Z'].arr, conv[0]['out']) and search[0]['k'] is k))
+            outs = (back[0]['out'], back[1]['out'])
+            U.post('both-found-indices-are-mapped-back-with-q = int(log2 n), and these two are what is returned (in either order)', p,
+                   z3.And(z3.BoolVal(back[0]['arg'] is search[0]['out'][0] and back[1]['arg'] is search[0]['out'][1]
+                                     and ((i_min is outs[0] and i_max is outs[1]) or (i_min is outs[1] and i_max is outs[0]))),
+                          Z(back[0]['q']) == qv, Z(back[1]['q']) == qv))
+            U.post('the-two-evaluations-are-get(Y, .) on the tensor the caller passed, at the two mapped-back indices', p,
+                   z3.BoolVal(all(z3.eq(g[0].arr, arr) for g in gets) and gets[0][1] is outs[0] and gets[1][1] is outs[1]))
+            U.canary('canary-the-reported-values-are-those-of-the-QTT-approximation', p,
+                     Z(y_min) == tt_val(search[0]['Z'].arr, search[0]['out'][0].t, search[0]['Z'].n), axioms=AX)
         for nm, i, y in (('minimum', i_min, y_min), ('maximum', i_max, y_max)):
             U.post(f'index-of-the-{nm}-has-length-d-and-lies-inside-the-bounds-of-the-ORIGINAL-tensor', p,
                    z3.And(Z(i.shape[0]) == d, z3.Implies(z3.And(0 <= c_, c_ < d), z3.And(0 <= i.t[c_], i.t[c_] < T.d1(arr[c_])))), axioms=AX)
             U.post(f'reported-{nm}-is-the-entry-of-the-tensor-the-caller-passed-at-the-returned-index', p, Z(y) == tt_val(arr, i.t, d), axioms=AX)
         U.post('reported-minimum-does-not-exceed-reported-maximum', p, Z(y_min) <= Z(y_max), axioms=AX)
-        U.canary('canary-the-reported-values-are-those-of-the-QTT-approximation', p, Z(y_min) == tt_val(search[0]['Z'].arr, search[0]['out'][0].t, search[0]['Z'].n), axioms=AX)
     if valid:
         U.post('a-return-path-exists', U.pre, z3.BoolVal(nret >= 1))
     else:
@@ -975,3 +992,186 @@ def u_qtt_ok(U):
 @unit('optima.optima_qtt.validation', props=('C15',))
 def u_qtt_any(U):
     _optima_qtt_unit(U, False)
+
+
+# ==============================================================================================
+# sample.sample  (C14 "right-to-left marginal vectors, then mode-by-mode conditional draws with the left partial product carried along";
+# "all samplers return integer arrays of the requested shape inside the tensor bounds"; C10)
+#
+# Control / shape tier.  For every well-formed Y (d >= 2), m >= 1 (int), seed int / None / Generator, any unsert:
+#   * _rand is called once, with the seed object; EVERY draw comes from the generator it returns (never the global one);
+#   * right-to-left pass: phi[d] = [1], phi[i] = (sum over the mode of Y[i]) @ phi[i+1] is a vector of length r_i (i = d-1 .. 1): the
+#     marginal vectors of the modes >= i; every product has matching dimensions;
+#   * mode 0: ONE draw choice(n_0, m, p=p) with p = max(Y[0] @ phi[1] + unsert, 0) / sum (a vector of length n_0: what the code
+#     normalises is the clipped, unsert-shifted marginal of mode 0);  phi[0] = the slices Y[0][0, ind, :]  (m x r_1);
+#   * mode i >= 1: the (m, n_i) matrix einsum('ma,aib,b->mi', phi[i-1], Y[i], phi[i+1]) (left partial product at the drawn prefix x core x
+#     right marginal), clipped at 0; per row ONE draw choice(n_i, p=row / row.sum()) - m draws in row order; the drawn indices go to
+#     column i of the result and select the slices that extend the left partial products phi[i] (m x r_(i+1));
+#   * the result is the integer array of shape (m, d); every entry of column i is a drawn index in [0, n_i); no index / shape error.
+# Not covered: that the probability vectors are valid (non-negative with a positive sum - needs a non-negative tensor; a zero sum makes
+# Generator.choice raise), the VALUES of the marginals / conditionals (the chain of conditionals multiplies to the entry: bounded suite C14
+# with the auditing generator), float m.
+
+def _sample_unit(U, skind):
+    from contracts.misc import logging_rand
+    fn = U.func('sample', 'sample')
+    AX = T.axioms('shape', 'mulI')
+    st = U.state()
+    Y, arr, d = S.tt_param(st, 'Y', z3.Int('d'))
+    m = z3.Int('m')
+    seed = {'int': z3.Int('seed'), 'none': NONE, 'generator': R.VGen('caller')}[skind]
+    PhiE = X.PhiE
+    tq = z3.Int('t!p')
+
+    def phi_of(s):
+        ph = s.deref(s.vars['phi'])
+        if not (isinstance(ph, VSeq) and ph.tag == 'phi'):
+            raise M.ContractMismatch('sample: phi is not the list of interface arrays')
+        return ph
+
+    def right_vectors(ph, lo):
+        """phi[t] for lo <= t <= d are the marginal vectors: length r_t (1 for t = d)"""
+        e = ph.arr[tq]
+        return z3.ForAll([tq], z3.Implies(z3.And(lo <= tq, tq <= d), z3.And(PhiE.kind(e) == 1, PhiE.n0(e) == z3.If(tq == d, 1, T.d0(arr[tq])))), patterns=[ph.arr[tq]])
+
+    def inv0(ex, s, j):
+        ph = phi_of(s)
+        return [('phi-has-d+1-entries', ph.n == d + 1), ('marginal-vectors-of-the-modes-done-have-the-length-of-the-left-rank', right_vectors(ph, d - j))]
+
+    def inv1(ex, s, j):
+        ph = phi_of(s)
+        res = s.vars.get('res')
+        if not (isinstance(res, VArr) and res.ndim == 2):
+            raise M.ContractMismatch('sample: res is not the result matrix')
+        e = ph.arr[tq]
+        return [('phi-has-d+1-entries', ph.n == d + 1), ('marginal-vectors-of-the-modes-still-to-draw', right_vectors(ph, j + 1)),
+                ('left-partial-products-of-the-modes-drawn: m rows of the width of the right rank',
+                 z3.ForAll([tq], z3.Implies(z3.And(0 <= tq, tq <= j), z3.And(PhiE.kind(e) == 2, PhiE.n0(e) == m, PhiE.n1(e) == T.d2(arr[tq]))), patterns=[ph.arr[tq]])),
+                ('result-keeps-shape-(m,d)', z3.And(Z(res.shape[0]) == m, Z(res.shape[1]) == d, z3.BoolVal(res.dtype == 'i')))]
+
+    def reset_log(ex, h, pre, j):
+        h.ghost['pre_log'], h.ghost['pre_cols'] = pre.ghost.get('drawlog', []), pre.ghost.get('columns', [])
+        h.ghost['ndraw'], h.ghost['drawlog'], h.ghost['columns'] = ex.fresh_int('ndraw'), [], []
+        h.ghost['phi_head'] = phi_of(h).arr
+        old = pre.vars.get('res')
+        if isinstance(old, VArr) and old.ndim == 2:          # column stores do not rebind res: same kind of array, any shape (the invariant fixes it)
+            a, b = ex.fresh_int('rows'), ex.fresh_int('cols')
+            h.assume(a >= 0, b >= 0)
+            h.vars['res'] = VArr((a, b), None, None, old.dtype)
+
+    def end1(ex, s, o, j):
+        log, cols = s.ghost.get('drawlog', []), s.ghost.get('columns', [])
+        g = s.vars.get('rand')
+        ok = len(log) == 1 and log[0]['gen'] is g and log[0]['method'] == 'choice' and 'family' in log[0] and log[0]['params'][1] is True
+        ex.oblige(s, 'post', 'every-mode-takes-exactly-one-family-of-conditional-draws-choice(n, p=row/row.sum())-from-the-seeded-generator', z3.BoolVal(ok), None, assume=False)
+        if ok:
+            clip = getattr(log[0]['rows_of'], 'clipped', None)
+            cond = getattr(clip[0], 'cond_of', None) if clip is not None and clip[1] == 0 else None
+            ex.oblige(s, 'post', 'one-draw-per-sample-over-the-indices-of-the-current-mode', z3.And(log[0]['family'] == m, log[0]['params'][0] == T.d1(arr[j + 1])), None,
+                      assume=False)
+            head = s.ghost['phi_head']
+            ex.oblige(s, 'post', 'the-conditionals-are-the-rows-of-einsum(left partial product, core, right marginal)-clipped-at-0',
+                      z3.And(cond[0].t == head[j], z3.BoolVal(cond[1].tag == 'core' and cond[1].t is not None), cond[1].t == arr[j + 1], cond[2].t == head[j + 2])
+                      if cond is not None and getattr(cond[1], 't', None) is not None else z3.BoolVal(False), None, assume=False)
+        ex.oblige(s, 'canary', 'canary-loop-body-unreachable', False, None, assume=False)
+        gs = s.ghost.get('gathers', [])
+        okg = ok and len(gs) == 1 and gs[0][0].tag == 'core' and gs[0][0].t is not None and getattr(gs[0][1], 't', None) is log[0]['out']
+        ex.oblige(s, 'post', 'the-left-partial-products-are-extended-by-the-slices-of-the-current-core-at-the-indices-just-drawn',
+                  z3.And(z3.BoolVal(True), gs[0][0].t == arr[j + 1]) if okg else z3.BoolVal(False), None, assume=False)
+        okc = len(cols) == 1 and isinstance(cols[0][1], VArr) and cols[0][1].tag == 'ivec' and ok and cols[0][1].t is log[0]['out']
+        ex.oblige(s, 'post', 'the-drawn-indices-are-written-to-one-column-of-the-result', z3.BoolVal(bool(okc)), None, assume=False)
+        if okc:
+            ex.oblige(s, 'post', 'it-is-the-column-of-the-current-mode', cols[0][0] == j + 1, None, assume=False)
+
+    ex = U.executor(fn, loops={0: {'inv': inv0}, 1: {'inv': inv1, 'havoc_hook': reset_log, 'body_end': end1}}, axioms=AX, callees={'utils._rand': logging_rand})
+    ex.opt = ex.opt_phi = ex.np_scalar_div = ex.misc_shapes = True
+    ex.mode = 'ematch'
+    st.vars.update(Y=Y, m=m, seed=seed, unsert=z3.Real('unsert'))
+    res = U.run(ex, st, pre=[T.wf(arr, d), m >= 1])
+    U.assumed.append('utils._rand (unit utils._rand)')
+    U.cover('precondition-satisfiable', U.pre, axioms=AX)
+    for p, o in res:
+        if o.kind != 'return':
+            U.post('no-exception', p, False, axioms=AX, mode='ematch')
+            continue
+        rcalls = p.ghost.get('randcalls', [])
+        U.post('seed-goes-through-_rand-exactly-once', p, z3.BoolVal(len(rcalls) == 1 and rcalls[0][0] is seed))
+        if len(rcalls) != 1:
+            continue
+        g = rcalls[0][1]
+        if skind == 'generator':
+            U.post('a-generator-object-is-used-as-it-is', p, z3.BoolVal(g is seed))
+        U.post('the-conditional-draws-use-the-generator-returned-by-_rand', p, z3.BoolVal(p.vars.get('rand') is g))
+        log0, cols0 = p.ghost.get('pre_log', []), p.ghost.get('pre_cols', [])
+        ok0 = len(log0) == 1 and log0[0]['gen'] is g and log0[0]['method'] == 'choice' and log0[0]['params'][1] is True and len(log0[0]['shape']) == 1
+        U.post('mode-0-takes-one-draw-choice(n_0, m, p=..)-from-that-generator', p, z3.BoolVal(ok0))
+        if ok0:
+            U.post('it-draws-m-indices-of-mode-0', p, z3.And(log0[0]['params'][0] == T.d1(arr[0]), Z(log0[0]['shape'][0]) == m), axioms=AX, mode='ematch')
+            okc = len(cols0) == 1 and isinstance(cols0[0][1], VArr) and cols0[0][1].t is log0[0]['out']
+            U.post('and-writes-them-to-column-0', p, z3.And(z3.BoolVal(bool(okc)), cols0[0][0] == 0) if okc else False)
+        v = p.deref(o.value)
+        ok = isinstance(v, VArr) and v.ndim == 2
+        U.post('returns-a-matrix', p, z3.BoolVal(ok))
+        if ok:
+            U.post('integer-array-of-shape-(m,d)', p, z3.And(z3.BoolVal(v.dtype == 'i'), Z(v.shape[0]) == m, Z(v.shape[1]) == d), axioms=AX, mode='ematch')
+            U.canary('canary-no-samples', p, Z(v.shape[0]) == 0, axioms=AX)
+        U.post('argument-list-is-not-modified', p, z3.BoolVal(p.heap[Y.oid].arr is arr and p.heap[Y.oid].n is d))
+
+
+for _sk in ('int', 'none', 'generator'):
+    def _mk4(sk=_sk):
+        @unit(f'sample.sample.seed_{sk}', props=('C14', 'C10'))
+        def u(U):
+            _sample_unit(U, sk)
+    _mk4()
+
+
+# ==============================================================================================
+# Hand-made mutants (MUT_BASE=/tmp/base tools/mut.sh <file> '<sed>' <unit>) and the NAMED obligation that reports each.
+# "undecided" = Unsupported / ContractMismatch (exit 2): listed where a restructured-but-equivalent variant leaves the modelled subset.
+#
+# sample.py / sample.sample_tt.one_mode.*  and  sample.sample_tt.*
+#   s/itertools.product(lhs_1, lhs_2)/itertools.product(lhs_2, lhs_1)/        one_mode.middle: inv-keep.loop5.row-t-is-prefix[a] (+) [nn] (+) suffix[b]   (failed)
+#   s/np.concatenate(\[i, \[n\], j\])/np.concatenate([j, [n], i])/              one_mode.middle: inv-keep.loop5.every-row-has-..-position-decoding, ..row-t-is-prefix.. (failed)
+#   s/lhs_2 = sample_lhs(sh2, r, seed)/lhs_2 = sample_lhs(sh2, r, None)/      one_mode.first / .middle: post.one-Latin-hypercube-table-per-side-..-with-the-seed-object-itself (refuted / failed)
+#   s/idx_many.append(len_2)/idx_many.append(len_1)/                          sample_tt: inv-keep.loop6.idx_many[k]-is-the-number-of-suffix-rows (failed)
+#   s/idx.append(idx\[-1\] + len(pnts))/idx.append(len(pnts))/                sample_tt: inv-keep.loop6.idx-advances-by-the-block-length (failed)
+#   s/one_mode(n\[:i\], n\[i+1:\], n\[i\])/one_mode(n[:i], n[i:], n[i])/      sample_tt: inv-keep.loop6.idx_many[k].., block-k-has-n_k*L1_k*L2_k-rows, suffixes-of-block-k-.. (failed)
+#   quiet (equivalent): len_1, len_2 = len(lhs_2), len(lhs_1)  (both tables have r rows)
+#   undecided: np.concatenate(I) for np.vstack(I); sample_lhs(sh1, r, seed=seed); nested for loops instead of itertools.product (loop ordinals)
+# sample.py / sample.sample_lhs.bounds
+#   s/np.repeat(np.arange(k), m \/\/ k)/np.repeat(np.arange(k+1), m \/\/ k)/   post.every-entry-of-column-c-lies-in-[0, n_c), call-pre.choice-without-replacement-.. (failed)
+#   s/rand.choice(k, m-len(I1), replace=False)/rand.choice(k+1, .../          post.every-entry-of-column-c-lies-in-[0, n_c) (failed)
+#   s/np.concatenate(\[I1, I2\])/np.concatenate([I1, I1])/                     call-pre.column-assignment-length-matches (failed)
+# optima.py / optima.optima_tt_beam.{l2r,r2l}.{best,all}
+#   s/I_l = np.kron(I, teneva._ones(n))/I_l = np.kron(teneva._ones(n), I)/    l2r: post.np.kron-assembly-of-I-enumerates-(candidate, mode index)-in-the-order-of-the-reshape-of-Q (failed);
+#                                                                             inv-keep.loop0.layout-consistency times out (undecided)
+#   s/I_r = np.kron(teneva._ones(n), I)/I_r = np.kron(I, teneva._ones(n))/    r2l: the same post (failed)
+#   s/I_r = np.kron(teneva._ones(I.shape\[0\]), teneva._range(n))/..kron(teneva._range(n), teneva._ones(I.shape[0]))/   l2r: the same post (failed)
+#   s/np.hstack((I_l, I_r))/np.hstack((I_r, I_l))/                            l2r: inv-keep.loop0.rows-of-I-are-valid-multi-index-prefixes (failed); r2l: undecided (timeout)
+#   s/(k+1):-1\]/(k+1+1):-1]/                                                 post.selection-keeps-min(k, ..), inv-keep.loop0.at-most-k-candidates-from-the-second-mode-on (failed)
+#   s/0 if l2r else len(Y)-1, use_stab/len(Y)-1 if l2r else 0, use_stab/      post.the-sweep-starts-at-the-pivot-of-the-orthogonalisation.. (failed, both directions)
+#   s/return I if ret_all else I\[0\]/.. else I[-1]/                          post.it-is-the-first-row (best candidate first) (failed)
+#   s/axis=1 if l2r else 0/axis=0 if l2r else 1/                              call-pre.selected-positions-are-row-numbers-of-the-index-table (failed)
+#   s/G = Z\[0 if l2r else -1\]/G = Z[-1 if l2r else 0]/                      call-pre.first-core-reshape: r1 = 1 .., inv-init.loop0.* (failed)
+#   undecided: np.concatenate((I_l, I_r), axis=1); Q.reshape(Q.shape[0]*n, r2); I[ind[::-1], :]
+# optima.py / optima.optima_qtt.power_of_two
+#   delete the final `if y_min > y_max: swap`  (the tree before the C15 repair)  post.reported-minimum-does-not-exceed-reported-maximum (failed)
+#   swap replaced by i_min, y_min, i_max, y_max = i_min, y_max, i_max, y_min     post.reported-minimum/maximum-is-the-entry-of-the-tensor-the-caller-passed-.. (failed)
+#   s/y_min = teneva.get(Y, i_min)/y_min = teneva.get(Z, i_min)/              call-pre.get: .. every index inside its mode, post.reported-*-is-the-entry-of-the-tensor-the-caller-passed (failed)
+#   s/y_max = teneva.get(Y, i_max)/y_max = y_max/                             post.reported-maximum-is-the-entry-of-the-tensor-the-caller-passed-at-the-returned-index (failed)
+#   s/ind_qtt_to_tt(i_max, q)/ind_qtt_to_tt(i_min, q)/                        post.both-found-indices-are-mapped-back-.. (failed)
+#   s/tt_to_qtt(Y, e, r)/tt_to_qtt(Y, r, e)/                                  post.conversion-of-the-given-tensor-with-the-caller-s-accuracy-and-rank-cap (failed)
+#   s/= optima_tt(Z, k)/= optima_tt(Z, q)/                                    post.search-on-the-converted-tensor-with-the-caller-s-k (failed)
+#   s/q = int(np.log2(n))/q = int(np.log2(n)) + 1/                            raise-iff.no-exception-for-power-of-two-shapes (failed), post.a-return-path-exists (refuted)
+#   undecided: get(Y, i_min, _to_item=True)
+# sample.py / sample.sample.seed_*
+#   s/range(d-1, 0, -1)/range(d-1, 1, -1)/                                    call-pre.matmul: right operand is a vector of length r2 (failed)
+#   s/np.sum(Y\[i\], axis=1) @ phi\[i+1\]/np.sum(Y[i-1], axis=1) @ phi[i+1]/   call-pre.matmul: right operand is a vector of length cols(A), inv-keep.loop0.marginal-vectors-.. (failed)
+#   s/rand.choice(c.shape\[1\], p=/rand.choice(c.shape[0], p=/                 call-pre.choice-probabilities-have-the-length-of-the-population (failed)
+#   s/res\[:, i\] = ind/res[:, i-1] = ind/  (inside sample)                   post.it-is-the-column-of-the-current-mode (failed)
+#   einsum('ma,aib,b->mi', phi[i-1], Y[i], phi[i+1]) -> .., phi[i])           call-pre.einsum: right operand is a vector of length r2, post.the-conditionals-are-the-rows-of-einsum(..) (failed)
+#   s/enumerate(Y\[1:\], start=1)/enumerate(Y[1:], start=0)/                  call-pre.einsum: left operand .., post.it-is-the-column-of-the-current-mode, inv-keep.loop1.left-partial-products-.. (failed)
+#   c[:, ind] -> c[:, res[:, 0]]                                              post.the-left-partial-products-are-extended-by-the-slices-of-the-current-core-at-the-indices-just-drawn (failed)
+#   rand = teneva._rand(seed) -> teneva._rand()   (inside sample)             post.seed-goes-through-_rand-exactly-once (failed)
+#   undecided: np.random.choice(..) (not in the model table; frames / C10 reports it); p.ravel() for p.flatten()
